@@ -77,7 +77,7 @@ def run(tier, replay=None):
             if f.endswith(".xml"):
                 seeds.append(("naming:" + f[:-4], open(os.path.join(repo.REPO, "test", "naming_test", f)).read()))
     rep.set("bounds", {"seeds": [s for s, _ in seeds],
-                       "mutations": "every single structure-aware mutation at every node: attribute delete / set to each of %d tokens / add every absent attribute of the 25-name vocabulary with 1-6 values (quick: on the seeds traits_test_schema and kinds) / retarget every reference attribute to every named entity; text garble; element delete / duplicate / swap / re-parent (down, up) / rename to each of %d known tags / empty; truncation at every line end"
+                       "mutations": "every single structure-aware mutation at every node: attribute delete / set to each of %d tokens / add every absent attribute of the 25-name vocabulary with 1-6 values / add text to text-less elements / add a minimal child of each of the 14 known tags, first and last (quick: additions on the seeds traits_test_schema and kinds only) / retarget every reference attribute to every named entity; text garble; element delete / duplicate / swap / re-parent (down, up) / rename to each of %d known tags / empty; truncation at every line end"
                                     % (len(xmlmut.TOKENS_QUICK if quick else xmlmut.TOKENS), len(xmlmut.TAGS)),
                        "argv": "every argument vector of length <= %d over {--schema-name, --output-dir, --inject-include, --version, --help, --, -x, '', good.xml, missing.xml, dir/}" % (3 if quick else 4),
                        "includes": "self include, mutual include, missing file, directory, include of a valid file; every include graph over a root and two fragments with <= 2 includes each over %d targets" % (3 if quick else 5), "raw_inputs": [n for n, _ in xmlmut.RAW_INPUTS],
